@@ -62,8 +62,10 @@ judge for `cli.new_vanity`, which also gives C18 judged witnesses); declared arr
 start / end / inside of every binary input); JSON `\\uXXXX` escapes in type strings (C20c:
 `vlib/jsonspell.py`, equivalent re-spellings of documents).
 
-**Behaviour-preserving refactors (false-alarm test).** Four sub-agents rewrote the code without
-changing behaviour (25 + 13 + 20 + 25 rewrites: the mnemonic bit packing re-done over a 33-byte bit
+**Behaviour-preserving refactors (false-alarm test).** Sub-agents rewrote the code without
+changing behaviour, twice: round 1 (25 + 13 + 20 + 25 rewrites; re-run after every widening of the
+checks) and round 2 (`round2-A/B/D`: 57 + 37 + 52 rewrites, each verified by its author with a
+differential harness against the original; notes in `seeded/refactors/*.notes.md`). Round 1: the mnemonic bit packing re-done over a 33-byte bit
 string, `binary_search` replaced by `partition_point`, `for_index` built without parsing, the
 EIP-712 work-list turned from depth-first to breadth-first, the domain scan rewritten with a cursor,
 `leading_zeros/8` replaced by a scan for the first non-zero byte, error messages reworded, the sign
